@@ -2,8 +2,9 @@
 
 INIT    typestate rule (see typestate.py) on witness expansions of array::map!, from_fn!, collect_const!
         (plain, filtered, flat-mapped), string::from_iter!, each also with closures that `break`, `continue`,
-        `return` or `panic!`: assume_init must stay guarded by counter == LEN and every counter increment by a
-        MaybeUninit::new store at the counter.
+        `return` or `panic!`, and array::map! also on a user type that derefs to an array and has a `len()` of its own:
+        assume_init must stay guarded by counter == LEN, LEN must be the length of the MaybeUninit array itself, and every
+        counter increment must be matched by a MaybeUninit::new store (at the counter, or by the counting argument).
 DEP     the element stored at index i is the closure applied to input element i / to i itself.
 BUILDER ArrayBuilder: push = assert(inited < N); array[inited] = new(val); inited += 1; build asserts is_full
         and reads the array from the ManuallyDrop'ed self; `inited` is written only by new/push/struct copies.
@@ -29,6 +30,11 @@ pub fn w_map_labeled<T: Copy, U>(a: [T; 4]) -> [U; 4] { 'outer: loop { return ko
 pub fn w_from_fn<U>() -> [U; 5] { konst::array::from_fn!(|i| g0::<U>(i)) }
 pub fn w_from_fn_break<U>() -> [U; 5] { konst::array::from_fn!(|i| { if cond() { break } g0::<U>(i) }) }
 pub fn w_from_fn_typed() -> [u16; 3] { konst::array::from_fn!([u16; 3] => |i| g0::<u16>(i)) }
+pub struct Row([u8; 4], usize);
+impl core::ops::Deref for Row { type Target = [u8; 4]; fn deref(&self) -> &[u8; 4] { &self.0 } }
+impl Row { pub fn len(&self) -> usize { self.1 } }
+pub fn w_map_deref(r: Row) -> [u16; 4] { konst::array::map!(r, |x| m0::<u8, u16>(x)) }
+pub fn w_map_deref_ref(r: &Row) -> [u16; 4] { konst::array::map!(r, |x| m0::<u8, u16>(x)) }
 pub fn w_map_<T, U>(a: [T; 4]) -> [U; 4] { konst::array::map_!(a, |x| m0::<T, U>(x)) }
 pub fn w_map__break<T, U>(a: [T; 4]) -> [U; 4] { konst::array::map_!(a, |x| { if cond() { break } m0::<T, U>(x) }) }
 pub fn w_from_fn_<U>() -> [U; 5] { konst::array::from_fn_!(|i| g0::<U>(i)) }
@@ -56,7 +62,7 @@ def run(ctx):
     byval(ctx, prog)
     twopass(ctx, prog)
     early_exit_programs(ctx)
-    ctx.floor("INIT", 12)
+    ctx.floor("INIT", 18)
     ctx.floor("DEP", 3)
     ctx.floor("BUILDER", 5)
     ctx.floor("BYVAL", 3)
